@@ -89,6 +89,17 @@ def gen_cases(rng, n):
             if syms:
                 c["assign"] = {s: rng.choice(["3", "7/2", "0.5", "1/3", "2.25"]) for s in rng.sample(syms, rng.randint(1, min(2, len(syms))))}
         out.append(c)
+    # sums and products as the backend builds them for repetitions (sequence_sum / sequence_prod), including terms that do
+    # not mention the iterator, non-zero lower limits, and a sum whose term binds the same iterator again
+    terms = [E.num(3), E.sym("x"), E.op("mul", E.num(2), E.sym("x")), E.op("add", E.sym("y"), E.num(1)),
+             E.op("mul", E.sym("i"), E.sym("x")), E.op("add", E.op("pow", E.sym("i"), E.num(2)), E.sym("y")),
+             ["b", "sum", "i", E.op("mul", E.sym("i"), E.num(2)), E.num(0), E.num(2)]]
+    lows = [E.num(0), E.num(1), E.sym("y")]
+    for kind in ("sum", "prod"):
+        for term in terms:
+            for lo in lows:
+                hi = rng.choice([E.op("sub", E.sym("K"), E.num(1)), E.sym("K"), E.num(4)])
+                out.append({"seq": {"kind": kind, "term": term, "it": "i", "lo": lo, "hi": hi}, "plus": rng.choice([None, "x", "2"])})
     for t in ["PI * x", "exp(1) * y", "2 * PI + x", "x ^ -1", "x ^ (1/2) * y ^ (3/2)", "-x", "-(x + y)", "x - y", "1/(x + y)", "x/y/2",
               "(x ^ 2) ^ y", "x ^ y ^ 2", "f(x) ^ -2", "lambda ^ in", "2 ^ -x", "-2 ^ x", "(-2) ^ x", "x // y", "x % y", "0.001 * x", "x * 1.5e-07"]:
         out.append({"text": t})
@@ -122,7 +133,7 @@ def emit(pairs):
 
 
 def nontrivial(case):
-    return "text" in case or E.size(case["expr"]) >= 4
+    return "text" in case or "seq" in case or E.size(case["expr"]) >= 4
 
 
 def distribution(cases):
